@@ -116,6 +116,7 @@ static std::vector<Op> buildAlphabet(const std::string& name, Limits& L, const s
         A.push_back(opFrame("ok", "app", 0, L)); A.push_back(opFrame("ok", "app", 2, L)); A.push_back(opFrame("ok", "0", 1, L));
         A.push_back(opFrame("ok", "n+1", 0, L)); A.push_back(opFrame("addpoints", "0", 1, L)); A.push_back(opFrame("addanalogs", "0", 1, L));
         A.push_back(opColPoint("ok", 1, L)); A.push_back(opColAnalog("ok", 1, L));
+        A.push_back(opSubmitStored(0, "n", L)); A.push_back(opSubmitStored(0, "n+1", L)); A.push_back(opSubmitStored(0, "app", L));   // a stored frame handed back (append / past the end), then columns and a save
         A.push_back(opReload());
     } else if (name == "loaded") {  // C05 / C06 / C07 / C10: every editing call on objects LOADED from every single-deviation generated file (roots below)
         L.maxFrames = 4; L.maxPoints = 4; L.maxChans = 4; L.noColumnsOnGaps = true; L.documentedDevsOnly = true; L.noDuplicateDeclarations = true; L.noRateEditWithData = true; L.integerRateRatioOnly = true;
@@ -164,14 +165,15 @@ int main(int argc, char** argv) {
     {
         std::vector<std::pair<std::string, std::string>> roots;
         if (alphabet == "frames") roots = {{"events", "events=2;first=5"}, {"noanalog", "agroup=empty;chans=0;points=1"}, {"first3", "first=3;chans=0"}};   // first frame number 3: header window 2..3 overlaps the indices count, count+1
-        if (alphabet == "mut") roots = {{"events", "events=2;first=5"}, {"sparse", "ids=sparse;extra=all;order=paramsFirst"}, {"zeros", "zeros=7;prologue=0000;frames=1"}, {"noanalog", "agroup=empty;chans=0;points=1"}, {"onechan", "chans=1;points=1;frames=1"}, {"minimal", "optparams=minimal;chans=1;points=1;frames=1"}};   // onechan: room for one more point and channel on a LOADED object (whose ANALOG group has no DESCRIPTIONS)
+        if (alphabet == "mut") roots = {{"events", "events=2;first=5"}, {"sparse", "ids=sparse;extra=all;order=paramsFirst"}, {"zeros", "zeros=7;prologue=0000;frames=1"}, {"noanalog", "agroup=empty;chans=0;points=1"}, {"onechan", "chans=1;points=1;frames=1"}, {"minimal", "optparams=minimal;chans=1;points=1;frames=1"}, {"analogonly", "points=0;frames=1"}};   // onechan: room for one more point and channel on a LOADED object (whose ANALOG group has no DESCRIPTIONS)
         if (alphabet == "c07") roots = {{"onechan", "chans=1;points=1;frames=1"}};
-        if (alphabet == "build") roots = {{"events", "events=18;first=705"}, {"extra", "extra=all;descs=d127;locks=yes"}, {"str1d", "extra=str1d;ids=swapped"}, {"labels", "labels=more;alabels=fewer;points=3"}, {"noanalog", "agroup=empty;chans=0"}, {"block3", "pblock=3;zeros=1"}};
+        if (alphabet == "build") roots = {{"events", "events=18;first=705"}, {"extra", "extra=all;descs=d127;locks=yes"}, {"str1d", "extra=str1d;ids=swapped"}, {"labels", "labels=more;alabels=fewer;points=3"}, {"noanalog", "agroup=empty;chans=0"}, {"block3", "pblock=3;zeros=1"}, {"analogonly", "points=0;frames=1"}, {"pointonly", "chans=0;frames=1"}};   // analogonly/pointonly: the other kind of data arrives by REPLACING the single stored frame
         if (alphabet == "params") roots = {{"described", "extra=all;locks=yes"}, {"sparse", "ids=sparse"}};
         if (alphabet == "lookup") roots = {{"labels", "labels=fewer;alabels=more;points=3"}, {"events", "events=2"}};
         if (alphabet == "loaded") {   // the default file and every file that differs from it in ONE generator dimension (thorough: also the listed pairs that put an unusual parameter section under an unusual shape)
             roots.push_back({"default", "default"});
             for (auto& d : gen::dims(false)) for (size_t a = 1; a < d.alts.size(); ++a) { if (d.name == "points" && d.alts[a] == "255") continue; roots.push_back({d.name + "=" + d.alts[a], d.name + "=" + d.alts[a]}); }
+            for (auto x : {"points=0;optparams=nolabels", "chans=0;optparams=nolabels", "points=0;frames=1", "chans=0;frames=1"}) roots.push_back({x, x});
             if (tier == "thorough") for (auto sh : {"points=1", "chans=1", "frames=1", "points=0", "chans=0", "frames=0"}) for (auto ps : {"optparams=minimal", "optparams=rich", "agroup=empty", "labels=fewer", "labels=more", "alabels=fewer", "alabels=more", "rates=0x1", "datastart=absent", "extra=none", "locks=yes", "first=705"}) roots.push_back({std::string(sh) + ";" + ps, std::string(sh) + ";" + ps});
         }
         std::string rdir = scratch + "/roots"; mkdir(rdir.c_str(), 0755);
